@@ -5,6 +5,7 @@ import (
 	"context"
 	"fmt"
 	"os"
+	"os/exec"
 	"path/filepath"
 	"runtime"
 	"runtime/pprof"
@@ -100,11 +101,20 @@ func c18W1(c *ev.Ctx) {
 	}
 	scripts := make([]*hx.Script, n)
 	want := make([]string, n)
+	vkinds := []string{"v[]i32", "v[]i64", "v[]u32", "v[]u64", "v[]f32", "v[]f64", "vstr"}
 	for i := range scripts {
 		scripts[i] = c04Random(r.Fork(fmt.Sprintf("w1-%d", i)))
-		p := filepath.Join(c.Dir, fmt.Sprintf("seq%d.h5", i))
-		hx.Run(p, scripts[i])
-		want[i] = dumpText(p)
+		// every writer starts with a variable-length dataset (type handlers and heap writers are
+		// shared, process-wide objects; the parallel run comes FIRST so that whatever is set up
+		// on first use is set up by several goroutines at once)
+		vk := vkinds[(c.Index/6+i)%len(vkinds)]
+		v := hx.Val{Kind: vk}
+		if vk == "vstr" {
+			v.S = []string{"a", "", "ccc"}
+		} else {
+			v.VU = [][]uint64{{1, 2}, {}, {3}}
+		}
+		scripts[i].Ops = append([]hx.Op{{K: "create_ds", Path: "/w1_vlen", DT: vk, Dims: []uint64{3}, Data: &v}}, scripts[i].Ops...)
 	}
 	got := make([]string, n)
 	var wg sync.WaitGroup
@@ -121,6 +131,11 @@ func c18W1(c *ev.Ctx) {
 	}
 	close(start)
 	wg.Wait()
+	for i := range scripts {
+		p := filepath.Join(c.Dir, fmt.Sprintf("seq%d.h5", i))
+		hx.Run(p, scripts[i])
+		want[i] = dumpText(p)
+	}
 	for i := range got {
 		if got[i] != want[i] {
 			c.Violation("parallel-differs:own-writer-and-reader", map[string]any{"goroutines": n, "index": i, "sequential": trunc40(want[i]), "parallel": trunc40(got[i])})
@@ -624,7 +639,92 @@ func c18W6(c *ev.Ctx) {
 	c.Case(fmt.Sprintf("W6|interval%v|sizequery%v", interval, delay), transitions > 0)
 }
 
+// C18FirstUse is the body of the "c18first" worker process: the very first writes of a process
+// are made by eight goroutines at once, each into its own file (variable-length datasets of
+// every kind, then a random history). Whatever the library sets up lazily on first use
+// (type handlers, registries, pools) is then set up concurrently; the race detector watches.
+func C18FirstUse(dir string, seed int64) {
+	var wg sync.WaitGroup
+	start := make(chan struct{})
+	vkinds := []string{"v[]i32", "v[]i64", "v[]u32", "v[]u64", "v[]f32", "v[]f64", "vstr"}
+	for g := 0; g < 8; g++ {
+		wg.Add(1)
+		go func(g int) {
+			defer wg.Done()
+			r := ev.NewRand(seed, "C18-first-use", g)
+			sc := c04Random(r)
+			var pre []hx.Op
+			for j, vk := range vkinds {
+				v := hx.Val{Kind: vk}
+				if vk == "vstr" {
+					v.S = []string{"a", "", "ccc"}
+				} else {
+					v.VU = [][]uint64{{1, 2}, {}, {3}}
+				}
+				pre = append(pre, hx.Op{K: "create_ds", Path: fmt.Sprintf("/first%d", (j+g)%len(vkinds)), DT: vkinds[(j+g)%len(vkinds)], Dims: []uint64{3}, Data: &v})
+				pre[len(pre)-1].Data.Kind = vkinds[(j+g)%len(vkinds)]
+				if vkinds[(j+g)%len(vkinds)] == "vstr" {
+					pre[len(pre)-1].Data = &hx.Val{Kind: "vstr", S: []string{"a", "", "ccc"}}
+				} else {
+					pre[len(pre)-1].Data = &hx.Val{Kind: vkinds[(j+g)%len(vkinds)], VU: [][]uint64{{1, 2}, {}, {3}}}
+				}
+			}
+			sc.Ops = append(pre, sc.Ops...)
+			<-start
+			p := filepath.Join(dir, fmt.Sprintf("first%d.h5", g))
+			hx.Run(p, sc)
+			_ = dumpText(p)
+		}(g)
+	}
+	close(start)
+	wg.Wait()
+}
+
+// c18FirstUseWorkers (case 0): fresh worker processes built with -race (see C18FirstUse).
+func c18FirstUseWorkers(c *ev.Ctx) {
+	bin := ev.RaceBinary()
+	if bin == "" {
+		return
+	}
+	n := c.Pick(4, 16)
+	type wres struct {
+		se  string
+		err error
+	}
+	res := make([]wres, n)
+	var wg sync.WaitGroup
+	for i := 0; i < n; i++ {
+		wg.Add(1)
+		go func(i int) {
+			defer wg.Done()
+			d := filepath.Join(c.Dir, fmt.Sprintf("firstuse%d", i))
+			_ = os.MkdirAll(d, 0o755)
+			cmd := exec.Command(bin, "c18first", d, fmt.Sprint(i))
+			var se bytes.Buffer
+			cmd.Stderr = &se
+			cmd.Env = append(os.Environ(), "GORACE=halt_on_error=0 exitcode=0")
+			err := cmd.Run()
+			res[i] = wres{se.String(), err}
+		}(i)
+	}
+	wg.Wait()
+	for _, w := range res {
+		if w.err != nil {
+			c.Inconclusive("c18first worker failed: " + w.err.Error())
+			return
+		}
+		c.Count("first_use:worker_processes_under_-race", 1)
+		for k, text := range ev.RaceKeys(w.se) {
+			c.Count("first_use:race_reports", 1)
+			c.Violation("race:"+k, map[string]any{"report": trunc40(text), "where": "first writes of a process made by eight goroutines at once"})
+		}
+	}
+}
+
 func c18Run(c *ev.Ctx) {
+	if c.Index == 0 {
+		c18FirstUseWorkers(c)
+	}
 	if c.Index%6 == 5 {
 		c18W6(c)
 		return
@@ -647,7 +747,7 @@ var C18 = &ev.Property{
 	ID:    "C18",
 	Level: "exploration",
 	Race:  true,
-	Rule: "all workloads run in a binary built with the race detector; every detector report is a violation keyed by the first library frames of its two stacks. W1: 2-32 goroutines, each writing its own file from its own history and reading it back (shared state reached: buffer pool, datatype registry), compared with the sequential run; W2: 2-16 readers with their own Open handle on one file (corpus or library-written), six complete dumps each, compared with the sequential dump; in half of the cases every second reader also opens torn copies of the file (16 random cuts in its first 8 KiB and a cut at every byte of its first two object headers), whose failing Opens and reads run next to the healthy ones; W3: one WritableBTreeV2 with lazy + incremental rebalancing (ticker 1 us - 1 ms, budgets 1 us - 10 ms, with and without progress callback), ONE foreground goroutine doing 2000 (thorough 6000) inserts, lazy deletes across the batch threshold, statistics and progress queries, stop and re-enable; every stop must return, afterwards no library goroutine may be left (bounded wait 4 s); W4: SmartRebalancer (re-evaluation every 100 us; in half of the cases with a detector whose sliding window is 2 or 10 ms, with idle phases that let events expire followed by reader-only calls) over a real B-tree, 2-8 goroutines calling RecordOperation/Evaluate/GetStats/GetMetrics plus MetricsCollector.RecordOperation/Snapshot whose history is checked for linearizability against a counter model (porcupine), Stop, restart, cancel through the context, goroutine census; W5: FileWriter created with each rebalancing configuration, an attribute history with runtime toggles, background mode left running or not, Close, goroutine census; W6 (every sixth case): 150 (thorough 600) short lives of a SmartRebalancer whose first re-evaluation switches background rebalancing on, over a tree adapter whose size query takes 0-1 ms, Stop called before, during or after that re-evaluation (one life in three is ended through its parent context first): when Stop has returned the adapter must have been told to stop background rebalancing. " +
+	Rule: "all workloads run in a binary built with the race detector; every detector report is a violation keyed by the first library frames of its two stacks. W1: 2-32 goroutines, each writing its own file from its own history and reading it back (shared state reached: buffer pool, datatype registry), compared with the sequential run; W2: 2-16 readers with their own Open handle on one file (corpus or library-written), six complete dumps each, compared with the sequential dump; in half of the cases every second reader also opens torn copies of the file (16 random cuts in its first 8 KiB and a cut at every byte of its first two object headers), whose failing Opens and reads run next to the healthy ones; W3: one WritableBTreeV2 with lazy + incremental rebalancing (ticker 1 us - 1 ms, budgets 1 us - 10 ms, with and without progress callback), ONE foreground goroutine doing 2000 (thorough 6000) inserts, lazy deletes across the batch threshold, statistics and progress queries, stop and re-enable; every stop must return, afterwards no library goroutine may be left (bounded wait 4 s); W4: SmartRebalancer (re-evaluation every 100 us; in half of the cases with a detector whose sliding window is 2 or 10 ms, with idle phases that let events expire followed by reader-only calls) over a real B-tree, 2-8 goroutines calling RecordOperation/Evaluate/GetStats/GetMetrics plus MetricsCollector.RecordOperation/Snapshot whose history is checked for linearizability against a counter model (porcupine), Stop, restart, cancel through the context, goroutine census; W5: FileWriter created with each rebalancing configuration, an attribute history with runtime toggles, background mode left running or not, Close, goroutine census; case 0 also starts 4 (thorough 16) fresh worker processes built with -race whose very first writes are made by eight goroutines at once (variable-length datasets of every kind, then a random history); W6 (every sixth case): 150 (thorough 600) short lives of a SmartRebalancer whose first re-evaluation switches background rebalancing on, over a tree adapter whose size query takes 0-1 ms, Stop called before, during or after that re-evaluation (one life in three is ended through its parent context first): when Stop has returned the adapter must have been told to stop background rebalancing. " +
 		"non-trivial: every case; distinct = (workload, parameters).",
 	Assumptions: []string{"the race detector generalises over orderings of the accesses it observed (happens-before), not over paths that were not executed"},
 	Cases: func(tier string) int {
